@@ -343,6 +343,10 @@ def judgeParse (cfg : ParseCfg) (cid : String) (o : Op) (hs : HState) (out : Out
           -- correct fields
           let genuine := !implStrs.isEmpty && implStrs.all (allAccum.contains ·)
           if oneP then
+            -- C02 also under the cost flag: the single tree is the translation of a derivation
+            let noCostImpl := strSet (implTrees.map Tree.strNoCost)
+            out := out.v cid o.n "C02" "K" (!hasAlt tab && noCostImpl.length == 1 && noCostImpl.all (distinctNoCost.contains ·))
+              s!"cost flag: tree={noCostImpl} translations={distinctNoCost.length}"
             let okOne := !hasAlt tab && implStrs.length == 1 && implStrs.all (best.contains ·)
             out := out.v cid o.n "C04" "K" okOne
               ((if genuine && !hasAlt tab && implStrs.length == 1 then evTag else "") ++ s!"tree={implStrs} minimal({minC})={best}")
